@@ -133,6 +133,34 @@ def _off(seed, i, dim):
     return np.array(_OFFS[seed % 4][i % 3][:dim])
 
 
+def periodic_roots(seed=0):
+    """Periodic meshes made by the library (Mesh*DG.init_tensor / .periodic): name -> St whose t is the identified
+    (topological) connectivity and whose p holds the per-cell geometry nodes.  Only topological claims apply to them;
+    at least three cells per periodic direction, so that a facet is still determined by its vertex set."""
+    import skfem
+    x4 = np.array([0., .5, 1.25, 2.])
+    y3 = np.array([0., 1., 1.5])
+    y4 = np.array([0., .75, 1., 1.5 + (seed % 2) * .25])
+    z2 = np.array([0., 1.])
+    out = collections.OrderedDict()
+
+    def add(name, m):
+        out[name] = from_mesh(m, hist=(name,))
+    add('P:line3', skfem.MeshLine1DG.init_tensor(x4, periodic=[0]))
+    add('P:tri-x', skfem.MeshTri1DG.init_tensor(x4, y3, periodic=[0]))
+    add('P:tri-y', skfem.MeshTri1DG.init_tensor(y3, x4, periodic=[1]))
+    add('P:tri-xy', skfem.MeshTri1DG.init_tensor(x4, y4, periodic=[0, 1]))
+    add('P:quad-x', skfem.MeshQuad1DG.init_tensor(x4, y3, periodic=[0]))
+    add('P:quad-xy', skfem.MeshQuad1DG.init_tensor(x4, y4, periodic=[0, 1]))
+    add('P:hex-x', skfem.MeshHex1DG.init_tensor(x4, y3, z2, periodic=[0]))
+    add('P:hex-z', skfem.MeshHex1DG.init_tensor(z2, y3, x4, periodic=[2]))
+    # identification given explicitly on an irregular mesh: left and right vertical sides of a 3 x 1 strip
+    mq = skfem.MeshQuad(np.array([[0, 0], [1, 0], [2.25, 0], [3, 0], [0, 1], [1, 1.25], [2.25, .75], [3, 1]], dtype=float).T,
+                        np.array([[0, 1, 5, 4], [1, 2, 6, 5], [2, 3, 7, 6]]).T)
+    add('P:quad-strip', skfem.MeshQuad1DG.periodic(mq, np.array([3, 7]), np.array([0, 4])))
+    return out
+
+
 def seeds(seed=0, kinds=None):
     """Ordered dict name -> St.  Simplest first within each kind."""
     out = collections.OrderedDict()
